@@ -124,6 +124,7 @@ def make_view(scaf_name, n, vi, op, facet, pre=None, twin=False):
         with NoTracing():
             set_load_factor(3 if n >= 2 else 1000)
             f = docenv.PARSER.parse(text, M.File)
+            docenv.warm(f)
             parent = sc.get_parent(f)
             raw = getattr(parent, sc.raw_attr)
             w = getattr(parent, view.attr)
